@@ -1042,6 +1042,16 @@ theorem session_chosen_units_one_rpow (toRat? : F → Option Rat) (tab : List Un
   · simp [numAlgR, litVal, powInt, powNat]
   · rw [parse_name _ _ n hv, h3 k n hk]; rfl
 
+/-- **the driver's power is the power**: where the rational power the driver executes (`ratRpowE`) reports an exact
+    result (`4^0.5 = 2`, `(1/8)^(2/3) = 1/4`, `(m^3)^(1/3)` for a rational `m` …), every `rpow` obeying the three laws,
+    over every ordered field, has exactly that value. -/
+theorem rpow_agrees_with_driver (L : RpowLaws rpow) (x q : Rat) (hx : 0 < x) (h : (ratRpowE x q).2 = true) :
+    rpow (x : F) q = ((ratRpowE x q).1 : F) := by
+  obtain ⟨hpos, hpow⟩ := ratRpowE_exact x q hx h
+  apply rpow_unique L (Rat.cast_pos.mpr hx) (Rat.cast_pos.mpr hpos) q
+  have := congrArg (fun t : Rat => (t : F)) hpow
+  simpa using this
+
 end rpow
 
 /-! ### non-vacuity: the hypotheses of the theorems above are satisfiable on the generated tables -/
@@ -1182,5 +1192,9 @@ example : parse (numAlgR (fun q : Rat => some q) (fun x _ => x)) (envSI (K := Ra
   decide +kernel
 example : parse (numAlgR (fun q : Rat => some q) (fun x _ => x)) (envSI (K := Rat) unitTable) "0^-0.5".toList = none := by
   decide +kernel
+-- hypotheses of `rpow_agrees_with_driver`: the driver's power is exact on perfect powers, and says so
+example : ratRpowE 4 (1 / 2) = (2, true) := by decide +kernel
+example : ratRpowE (1 / 8) (2 / 3) = (1 / 4, true) := by decide +kernel
+example : (ratRpowE 2 (1 / 2)).2 = false := by decide +kernel
 
 end Atomman.C09
